@@ -125,7 +125,7 @@ func ceMain(args []string) {
 		if sg != 0 && !lateSigner {
 			ff.Signer = ceSigner(sg == 2, &signed)
 		}
-		pred := []string{"absent", "absent", "keep", "drop", "err"}[p.intn(5)]
+		pred := []string{"absent", "absent", "keep", "drop", "err", "errkeep"}[p.intn(6)]
 		switch pred {
 		case "keep":
 			ff.Predicate = func(context.Context, interface{}) (bool, error) { return true, nil }
@@ -133,6 +133,8 @@ func ceMain(args []string) {
 			ff.Predicate = func(context.Context, interface{}) (bool, error) { return false, nil }
 		case "err":
 			ff.Predicate = func(context.Context, interface{}) (bool, error) { return false, errors.New("predicate failed") }
+		case "errkeep": // an error is an error whatever the boolean next to it says
+			ff.Predicate = func(context.Context, interface{}) (bool, error) { return true, errors.New("predicate failed") }
 		}
 		// payload
 		val, toks := genVal(p, 2)
